@@ -69,7 +69,7 @@ class LoopProp(Prop):
         return sum(line.encode()) & 0xffff
 
     def nontrivial(self, line, impl):
-        return impl.startswith("s=") or line.startswith(("timing ", "staleretx ", "multi "))
+        return impl.startswith("s=") or line.startswith(("timing ", "staleretx ", "multi ", "rcv ", "snd "))
 
     def classify(self, line, impl, res):
         if line.startswith("timing ") or line.startswith("staleretx "):
@@ -77,6 +77,12 @@ class LoopProp(Prop):
             return
         if line.startswith("multi "):
             res.count("server-level-lossy-upload:flags=" + line.split(" ")[2])
+            return
+        if line.startswith("rcv "):
+            res.count("receiver-alone:windowsize=" + line.split(" ")[2])
+            return
+        if line.startswith("snd "):
+            res.count("sender-alone:timeout-ms=" + line.split(" ")[3])
             return
         if not line.startswith("loop "):
             return
@@ -91,6 +97,12 @@ class LoopProp(Prop):
         if line.startswith("timing "):
             from .p_server import C09
             return C09.timing_oracle(self, line, impl)
+        if line.startswith("rcv "):
+            from .p_worker import receiver_oracle
+            return receiver_oracle(line, impl, ("budget", "fidelity"))
+        if line.startswith("snd "):
+            from .p_worker import sender_oracle
+            return sender_oracle(line, impl, ("budget", "slice"))
         if line.startswith("multi "):
             # a lost ACK per window never fails the upload: the file is stored with exactly its content and the client is told so
             from .p_server import C12
@@ -239,6 +251,23 @@ class C04(LoopProp):
             root = (self.sandbox + "/m%d" % k).encode().hex()
             lines.append("multi %s %s srv/c=gen:16:3 01 U:up1:8:1:gen:30:1 d:c:8:1" % (root, flags))
             lines.append("multi %s %s srv/c=gen:16:3 0 U:up1:512:2:gen:2100:8 U:up2:8:3:gen:70:2" % (root, flags))
+        # the sending worker alone on the virtual clock, with every legal interval up to 255 s: two to five failed attempts in a row (each a whole
+        # interval) and then progress - the budget is a count of attempts, not an amount of time
+        for tmo in (1, 5, 59, 60, 75, 100, 150, 255):
+            for nfail in (2, 3, 5):
+                lines.append("snd 8 %d %d 1 0 gen:20:1 A1@0 %s A2@0 %s A3@0" % (rng.choice([1, 2]), tmo * 1000, " ".join(["T"] * nfail), " ".join(["T"] * (nfail - 1))))
+        # the receiving worker alone against a scripted peer (the two real workers share one budget and one timer, so they give up together):
+        # runs of failed attempts shorter than the budget, separated by blocks that are accepted without filling the window
+        for w in (2, 3, 4, 8):
+            blk = "0102030405060708"
+            for pat in [[3, 3], [1, 5], [5, 1], [2, 2, 2], [5, 5, 5], [4, 4]]:
+                evs = ["D1:" + blk]
+                k = 2
+                for fails in pat:
+                    evs += ["T"] * fails + ["D%d:%s" % (k, blk)]
+                    k += 1
+                evs += ["D%d:%s" % (j, blk) for j in range(k, k + w)] + ["D%d:01" % (k + w)]
+                lines.append("rcv 8 %d 1 %d full %s" % (w, rng.choice([0, 1]), " ".join(evs)))
         # the same datagram lost six times in a row: beyond the budget, must end (no livelock)
         lines.append(loop_line(8, 1, 5000, 1, "gen:20:1", dd=[1, 2, 3, 4, 5, 6]))
         return list(dict.fromkeys(lines))
